@@ -298,6 +298,36 @@ pub fn run(args: &Args) -> (Meta, Stats) {
                 walk_inner_outer(&e, st, "hand-built");
             }
         }
+        // foreign elements whose local name is an HTML void / raw-text name, with children
+        if shard == 0 {
+            for ns in [NS_SVG, NS_MATHML] {
+                for p in VOID.iter().chain(RAW.iter()) {
+                    let e = elem(ns, p, vec![]);
+                    add(&e, text("x<&"));
+                    let g = elem(ns, "g", vec![]);
+                    add(&g, text("y"));
+                    add(&e, g);
+                    let holder = elem(NS_HTML, "div", vec![]);
+                    add(&holder, e);
+                    walk_inner_outer(&holder, st, "hand-built foreign element with a void/raw-text local name");
+                    st.count("foreign_void_named_elements");
+                }
+            }
+            for doc in ["<svg><link>x<g>y</g></link><input>z</svg>", "<math><col>x</col><source>y<mi>z</mi></source></math>", "<svg><br2>x</br2><param>p<g/></param></svg>", "<div><svg><style>a<b</style><script>c&d</script></svg></div>"] {
+                if let Ok(dom) = catch(|| html5ever::parse_document(RcDom::default(), ParseOpts::default()).one(doc)) {
+                    walk_inner_outer(&dom.document, st, &format!("parsed {doc:?}"));
+                    // and the serialization must re-parse to the same tree
+                    if let Ok(s) = ser(&dom.document, TraversalScope::ChildrenOnly(None), true) {
+                        if let Ok(d2) = catch(|| html5ever::parse_document(RcDom::default(), ParseOpts::default()).one(s.as_str())) {
+                            let (a, b) = (dump_html(&from_rcdom(&dom.document)), dump_html(&from_rcdom(&d2.document)));
+                            if a != b {
+                                st.violation("roundtrip:foreign-void-name", &format!("{doc:?} serializes to {} which re-parses differently: {}", show(&s), dump_diff(&a, &b)), json!({"kind": "foreign", "input": doc}));
+                            }
+                        }
+                    }
+                }
+            }
+        }
         while !expired(deadline) {
             check_round_trip(&mut rng, st);
             // Part B on generated and parsed trees
